@@ -30,6 +30,7 @@ type Spec struct {
 	Assumptions []string          `json:"assumptions"`
 	SkipInit    []string          `json:"skip_init"`
 	Outside     []string          `json:"outside"`
+	SkipInitRegexp bool           `json:"skip_init_regexp"`
 }
 
 type HarnessDecl struct {
